@@ -376,6 +376,11 @@ impl PreferenceManager {
         if let Some(mut user_prefs_file_path_buf) = user_prefs_file {
             user_prefs_file_path_buf.push("MathCAT/prefs.yaml");
             if is_file_shim(&user_prefs_file_path_buf) {
+                if prefs.prefs.is_empty() {
+                    // no system file -- the user's values are added to the fallback defaults (the file normally has just a few values and
+                    //   code such as set_string_pref() relies on some prefs being present)
+                    prefs = DEFAULT_USER_PREFERENCES.with(|defaults| defaults.clone());
+                }
                 prefs = Preferences::read_prefs_file(&user_prefs_file_path_buf, prefs)?;
             }
             // set the time otherwise keeps needing to do updates
